@@ -2,7 +2,7 @@
 (* Validation of the observations recorded by harness/cmd/authz against the  *)
 (* Authz relations.  The log is a sequence of lines                           *)
 (*   op   : id, shape, base (payload of the operation without authorization)  *)
-(*   case : id, deny <<families>>, mode, exact, cum <<payload after frame i>>,*)
+(*   case : id, deny <<families / coordinates>>, mode, exact, explain, cum <<payload after frame i>>,*)
 (*          errs <<paths>>, reqs <<[kind, roots <<families>>]>>, orph         *)
 (*          <<incremental payloads whose anchor was never delivered>>          *)
 (* One line is consumed per step; `bad` is the set of properties the case     *)
@@ -24,7 +24,7 @@ Judge(o, c, bp) ==
               \/ \E i \in DOMAIN c.orph : ~NoDeniedValue(Positions(o.shape, c.orph[i]), Deny)
       incons == \E i \in 1..n : ~NullConsistent(pos[i])
       inexact == c.exact /\ ~(n = 1 /\ ExactData(o.shape, o.base, Deny, c.cum[1]))
-      unrep == n > 0 /\ ~DenialReported(pos[n], bp, Deny, errs)
+      unrep == n > 0 /\ ~DenialReported(pos[n], bp, Deny, errs, c.explain, c.pathless)
       sent == ~PrefetchRule(c.reqs, Deny, c.mode)
       undet == \E i \in 1..n : AzIsObj(c.cum[i]) /\ AzUndetObj(o.shape, c.cum[i]) > 0
   IN (IF leak THEN {"NoDeniedValue"} ELSE {})
